@@ -181,7 +181,7 @@ func cmdCheck(args []string) int {
 			if ob.Status == "unsat" {
 				if strings.Contains(ob.Label, "later-iteration-reachable") {
 					infeasible = append(infeasible, shortFuncKey(ob.Func)+" "+ob.Label+": the loop-head state admits no iteration after the first (loop at "+ob.Site+")")
-					fmt.Printf("AUDIT: %s %s: the state assumed at the loop head admits no iteration after the first - what is proved after the loop may be vacuous\n", shortFuncKey(ob.Func), ob.Label)
+					fmt.Fprintf(os.Stderr, "audit: %s %s: the state assumed at the loop head admits no iteration after the first (listed in the evidence under vacuity_checks.infeasible_paths)\n", shortFuncKey(ob.Func), ob.Label)
 				} else {
 					infeasible = append(infeasible, shortFuncKey(ob.Func)+" path "+ob.Path+" (return at "+ob.Site+")")
 				}
